@@ -54,22 +54,29 @@ def divide_contract():
         d1 = e.fresh('daughter1', I); d2 = e.fresh('daughter2', I)
         has = e.fresh('division_succeeded', z3.BoolSort())
         st.pc.append(z3.Implies(has, z3.And(d1 > 0, d2 > 0, d1 != d2)))
-        st.ghost['daughters'] = (has, d1, d2)
+        from values import GuardedLog
+        st.ghost['daughters'] = st.ghost.get('daughters', GuardedLog()).add((has, d1, d2))
         return Rec('optional', {'has': has, 'value': Rec('pair', {'first': Ptr(d1, 'cell'), 'second': Ptr(d2, 'cell')})})
     def post(C):
         o = C.old
-        has, d1, d2 = C.post_state.ghost['daughters']
-        lst = C.args['c']       # unused
         return []
     # frame: cells other than the mother are not written; the list object is not written
     return Contract('cell_divider::divide_cell', PROP, frame=lambda C: [('cell.volume_', [C.val('c').ref])], ret_model=rm, post=post, assumed=True,
                     name='cell_divider::divide_cell (nullopt or two fresh cells, list untouched: C09)')
 
 
+def not_owned_by_a_cell(C, ref):
+    """the population list is an object of its own (a member of the solver or a local), not a container inside a cell"""
+    tg = C.e.uf('tag', I, I)
+    keys = ['cell.node_lst_', 'cell.face_lst_', 'cell.free_node_queue_', 'cell.free_face_queue_', 'cell.edge_set_']
+    return z3.And(*[tg(ref) != C.e.tag_of(k) + 1 for k in keys] + [tg(ref) != 1])
+
+
 def pre_division_body(C):
     o = C.old
     i = val(C, 'i'); lst = lv(C, 'cell_lst').ref
-    return [('index-in-range', z3.And(i >= 0, i < o.len(lst))), ('cell-non-null', o.at(lst, i, 'int') > 0)]
+    return [('index-in-range', z3.And(i >= 0, i < o.len(lst))), ('cell-non-null', o.at(lst, i, 'int') > 0),
+            ('population-list-is-not-a-container-of-a-cell', not_owned_by_a_cell(C, lst))]
 
 
 def post_division_body(C):
@@ -80,15 +87,17 @@ def post_division_body(C):
     dl = lv(C, 'cells_to_delete_lst').ref
     k = z3.Int('any_earlier_position')
     keep = z3.Implies(z3.And(k >= 0, k < o.len(lst)), n.at(lst, k, 'int') == o.at(lst, k, 'int'))
-    if 'daughters' not in g:
-        return [('no-division-no-change', z3.And(mx1 == mx0, n.len(lst) == o.len(lst), n.len(dl) == o.len(dl))), ('population-kept', keep)]
-    has, d1, d2 = g['daughters']
+    entries = g['daughters'].entries if 'daughters' in g else []
     L = o.len(lst)
-    return [('failed-division-changes-nothing', z3.Implies(z3.Not(has), z3.And(mx1 == mx0, n.len(lst) == L, n.len(dl) == o.len(dl)))),
-            ('daughters-get-the-next-two-unused-ids', z3.Implies(has, z3.And(n.f(d1, 'cell.cell_id_') == mx0, n.f(d2, 'cell.cell_id_') == mx0 + 1, mx1 == mx0 + 2))),
-            ('daughters-are-appended-to-the-population', z3.Implies(has, z3.And(n.len(lst) == L + 2, n.at(lst, L, 'int') == d1, n.at(lst, L + 1, 'int') == d2))),
-            ('mother-position-is-scheduled-for-removal', z3.Implies(has, z3.And(n.len(dl) == o.len(dl) + 1, n.at(dl, o.len(dl), 'int') == i))),
-            ('population-kept', keep)]
+    divided = z3.Or(*[z3.And(gd, has) for (gd, (has, d1, d2)) in entries]) if entries else z3.BoolVal(False)
+    out = [('no-successful-division-changes-nothing', z3.Implies(z3.Not(divided), z3.And(mx1 == mx0, n.len(lst) == L, n.len(dl) == o.len(dl)))),
+           ('population-kept', keep)]
+    for (gd, (has, d1, d2)) in entries:
+        ok = z3.And(gd, has)
+        out += [('daughters-get-the-next-two-unused-ids', z3.Implies(ok, z3.And(n.f(d1, 'cell.cell_id_') == mx0, n.f(d2, 'cell.cell_id_') == mx0 + 1, mx1 == mx0 + 2))),
+                ('daughters-are-appended-to-the-population', z3.Implies(ok, z3.And(n.len(lst) == L + 2, n.at(lst, L, 'int') == d1, n.at(lst, L + 1, 'int') == d2))),
+                ('mother-position-is-scheduled-for-removal', z3.Implies(ok, z3.And(n.len(dl) == o.len(dl) + 1, n.at(dl, o.len(dl), 'int') == i)))]
+    return out
 
 
 def post_renumber_body(C):
@@ -120,7 +129,8 @@ def post_run_structure(C):
 def remove_index_contract():
     def on_call(C, st):
         st.ghost['remove_index_calls'] = st.ghost.get('remove_index_calls', z3.IntVal(0)) + 1
-    return Contract('remove_index', PROP, frame=lambda C: [('*', None)], on_call=on_call, name='remove_index (any effect on the heap; call recorded)')
+    fr = lambda C: [('vec.len', [C.arg('vector').ref]), ('vec.data.int', [C.arg('vector').ref]), ('vec.epoch', [C.arg('vector').ref])]
+    return Contract('remove_index', PROP, frame=fr, on_call=on_call, assumed=True, name='remove_index (writes only the vector it is given; call recorded)')
 
 
 # ---- removal of small cells must re-establish POP-INV ------------------------------------------------------------------------------------
@@ -133,12 +143,39 @@ def post_iteration_popinv(C):
     return [('position-indices-are-renumbered-after-the-removal', z3.BoolVal('renumbered_after_removal' in g))]
 
 
+# ---- the id counter seen by the caller: solver::run_iteration up to the end of the division step, cell_divider::run inlined -----------
+def setup_solver(eng, st, args, this):
+    st.ghost['solver'] = this.ref
+
+
+def inv_counter(L):
+    s = L.st.ghost['solver']
+    dl = L.var('cells_to_delete_lst').ref
+    e0 = L.entry
+    return [('caller-counter-advances-by-two-per-scheduled-removal', L.cur.f(s, 'solver.max_cell_id_') == e0.f(s, 'solver.max_cell_id_') + 2 * L.cur.len(dl)),
+            ('removal-list-nonneg', L.cur.len(dl) >= 0)]
+
+
+def post_counter(C):
+    o, n = C.old, C.new
+    if C.outcome != 'loop-entry': return []
+    return [('id-counter-never-decreases', n.f(C.this, 'solver.max_cell_id_') >= o.f(C.this, 'solver.max_cell_id_'))]
+
+
+def save_mesh_contract():
+    return Contract('solver::save_mesh', PROP, frame=lambda C: [('solver.file_number_', [C.this.ref])], assumed=True, name='solver::save_mesh (writes files and file_number_ only)')
+
+
 def build(reg, cfg):
     reg.add(Contract('solver::solver', PROP, pre=pre_ctor_ids, post=post_ctor_ids, slice_loop=0, name='solver::solver::<id loop body>'))
     reg.add(Contract('cell_divider::run', PROP, pre=pre_division_body, post=post_division_body, slice_loop=0, use=[divide_contract()], safety={'bounds'},
                      name='cell_divider::run::<division loop body>'))
     reg.add(Contract('cell_divider::run', PROP, pre=pre_renumber_body, post=post_renumber_body, slice_loop=1, safety={'bounds'},
                      name='cell_divider::run::<renumbering loop body>'))
+    reg.add_loop(LoopContract('cell_divider::run', 0, inv_counter, modifies=['*']))
+    reg.add_loop(LoopContract('cell_divider::run', 1, lambda L: [], modifies=['cell.local_id_']))
+    reg.add(Contract('solver::run_iteration', PROP, post=post_counter, prefix_loop=0, setup=setup_solver,
+                     use=[save_mesh_contract(), divide_contract(), remove_index_contract()], name='solver::run_iteration::<division step, id counter>'))
     # contact couplings store (position index of the partner cell, node id): the C07 contract of the per-pair rule
     sub = __import__('spec').Registry()
     C07.build(sub, cfg)
